@@ -14,9 +14,11 @@ import (
 	"os/exec"
 	"path/filepath"
 	"regexp"
+	"runtime"
 	"sort"
 	"strconv"
 	"strings"
+	"syscall"
 	"time"
 )
 
@@ -324,7 +326,9 @@ func runDriver(c *Ctx) int {
 	ch := make(chan res, n)
 	for i := 0; i < n; i++ {
 		go func(i int) {
+			runtime.LockOSThread() // Pdeathsig is tied to the forking thread: keep it alive while the worker runs
 			cmd := exec.Command(c.Self)
+			cmd.SysProcAttr = &syscall.SysProcAttr{Pdeathsig: syscall.SIGKILL} // no orphaned workers if the driver is killed
 			cmd.Env = append(os.Environ(), "VERIF_MODE=worker", fmt.Sprintf("VERIF_SHARD=%d", i), fmt.Sprintf("VERIF_NSHARDS=%d", n), "GOMAXPROCS=2", "GOMEMLIMIT=3GiB")
 			out, err := cmd.CombinedOutput()
 			ch <- res{i, err, out}
@@ -595,13 +599,25 @@ func runReplay(c *Ctx, path string) int {
 		return 2
 	}
 	def := registry[rep.Property]
-	if def == nil || def.Replay == nil {
-		fmt.Println("HARNESS-ERROR: no replay routine for", rep.Property)
+	if def == nil {
+		fmt.Println("HARNESS-ERROR: unknown property", rep.Property)
 		return 2
 	}
 	c.Prop, c.Tier, c.NShards = rep.Property, rep.Tier, 1
 	os.MkdirAll(c.Scratch, 0o755)
-	if def.Replay(c, rep.Replay) {
+	fmt.Printf("replaying %s (property %s) on the current tree\n", path, rep.Property)
+	reproduced := false
+	if def.Replay != nil {
+		reproduced = def.Replay(c, rep.Replay)
+	} else if h, r := genericReplay(c, rep.Property, rep.Replay); h {
+		reproduced = r
+	} else if h, r := specificReplay(c, rep.Property, rep.Replay); h {
+		reproduced = r
+	} else {
+		fmt.Println("this record has no single-case replay (it describes a whole run: corpus comparison, digests or a device test); re-run the check to reproduce it:  bin/check", rep.Property, rep.Tier)
+		return 2
+	}
+	if reproduced {
 		fmt.Printf("VIOLATION property=%s replay=%s\n", rep.Property, path)
 		return 1
 	}
